@@ -21,10 +21,16 @@ CFG = dict(
          "through the values at the returned positions plus a flag: indices in range, distinct, never of a null. "
          "nt=0 marks the empty series",
     theorem_hint="Props/C12.v: C12_quantile_*, C12_percentile_of, C12_rank_*, C12_partition_*, C12_arg_partition_*",
-    level_text="Proof (Coq) about the Gallina model of vquantile, vpercentile_of, vrank, vpartition, varg_partition "
-               "(both branches / all paths, sorting modelled by a verified insertion sort under the model's sort_cmp): "
-               "see notes/C12.md for the list of theorems; model tied to the code by the differential run described in "
-               "the rule.",
+    level_text="Proof (Coq, carrier option R): 17 theorems about the Gallina model of vquantile / vmedian, vpercentile_of, "
+               "vrank, vpartition and varg_partition, for every series and every parameter, stated against ANY sorted "
+               "arrangement s of the non-null elements: quantile = value at fractional index (n-1)q of s under the four "
+               "interpolations on both branches of the code (q <= 1/2 ascending select, q > 1/2 descending select with 1-q), "
+               "null iff no valid element; percentile_of = the rank / weak / strict proportions; rank = #before + (#equal+1)/2 "
+               "(/ valid count when pct), nulls get null, every slot written (loop invariant of the run-length loop); "
+               "partition = permutation of (k+1 first of s ++ null padding), exactly that when sorted, with the length / "
+               "sub-multiset / dominance consequences; arg-partition = distinct in-range indices of non-null elements with "
+               "those values ++ -1 padding. Sorting is a verified insertion sort under the model's sort_cmp (nulls last). "
+               "The model is tied to the code by the differential run described in the rule.",
     level_note="Trusted: Coq kernel + Reals axioms for the theorems stated over option R; std's sort_unstable_by / "
                "select_nth_unstable_by post-conditions (modelled by a sort; order of ties unspecified, hence the "
                "multiset comparison); the model; harness and comparator.",
